@@ -72,10 +72,11 @@ Proof. exact CmpUpto_zero_iff. Qed.
 Print Assumptions C09_cmpupto_zero_iff.
 
 (** StrCmpUpto and CmpUpto always agree.  PARTIAL BY DESIGN (DESIGN §6 C09): in
-    the model the unsafe string->slice cast is the identity on the bytes; that the
-    cast is memory-safe on the real runtime (it reads a 24-byte slice header out of
-    a 16-byte string header) is NOT proved — it is monitored by the
-    bitstr.StrCmpUpto operation on every case. *)
+    the model the string->slice re-typing (unsafe) is the identity on the bytes.
+    Since the fix 907cc2b the slice header is built explicitly (Cap = Len), so the
+    cast is well-formed; what is NOT proved is that no store ever goes through the
+    alias of the immutable string — it is monitored by the bitstr.StrCmpUpto
+    operation on every case (result = CmpUpto on a copy, inputs unchanged). *)
 Theorem C09_StrCmpUpto : forall a b, StrCmpUpto a b = CmpUpto a b.
 Proof. exact StrCmpUpto_eq. Qed.
 Print Assumptions C09_StrCmpUpto.
